@@ -99,6 +99,17 @@ def fmtRecon (r : Recon) : String :=
     fmtList fmtInt r.ksPos,
     fmtNat (r.fallback.filter id).length]
 
+/-- the same without the end of the last bar (synthesised old-format files: their beat times are binary64 reprs,
+    and whether the last bar line lies at or just before a time-signature change is decided by float noise) -/
+def fmtReconX (r : Recon) : String :=
+  fmtTuple [fmtNat r.divs,
+    fmtList (fun (b, p) => fmtTuple [fmtInt b, fmtInt p]) r.barlines,
+    fmtList (fun (p, n, d) => fmtTuple [fmtInt p, fmtNat n, fmtNat d])
+      (sortBy (fun a b => decide (a.1 < b.1) || (decide (a.1 = b.1) &&
+        (decide (a.2.1 < b.2.1) || (decide (a.2.1 = b.2.1) && decide (a.2.2 ≤ b.2.2))))) r.tsPos),
+    fmtList fmtInt r.ksPos,
+    fmtNat (r.fallback.filter id).length]
+
 /-- notes in the order of the request: onset, total duration -/
 def fmtReconNotes (n : Nat) (r : Recon) : String :=
   let byIdx := (List.range n).map fun i =>
@@ -151,6 +162,8 @@ def handle (ts : List String) : String :=
     orErr <| (run (list pRawLine) rest).map fun raw => fmtList fmtEntry (alignmentOf (loadLines raw))
   | "dec" :: rest =>
     orErr <| (run pDecInput rest).bind fun (ns, tsl, ks) => (reconstruct ns tsl ks).map fmtRecon
+  | "decx" :: rest =>
+    orErr <| (run pDecInput rest).bind fun (ns, tsl, ks) => (reconstruct ns tsl ks).map fmtReconX
   | "decn" :: rest =>
     orErr <| (run pDecInput rest).bind fun (ns, tsl, ks) => (reconstruct ns tsl ks).map (fmtReconNotes ns.length)
   | "rtq" :: rest =>
